@@ -61,7 +61,7 @@ def run_case(case) -> Result:
     mt = spec["metric"]["type"] + ("-down" if spec["metric"].get("sign") == -1 else "") if "metric" in spec else "position-dependent"
     tag = f"{cls}[{mt}]"
     res.classes += [cls, "metric:" + mt]
-    if cls == "riem_softabs" and np.min(np.abs(np.linalg.eigvalsh(model.dens.hess(q)))) < 1e-6:
+    if cls == "riem_softabs" and False:  # (zero Hessian eigenvalues are inside the domain since the SoftAbs repair)
         res.discarded = True
         return res
     M = model.M(q)
